@@ -66,6 +66,9 @@ func c10RandEnzyme(r *rand.Rand) c10Enzyme {
 	}
 }
 
+// c10LastFragment is the interior of the last fragment poly returned (retained and re-inspected after later calls).
+var c10LastFragment string
+
 // c10Cut calls poly and returns the fragment multiset as sorted upper-case keys.
 func c10Cut(e c10Enzyme, seq string, circular bool) (keys []string, panicked string, err error) {
 	var frs []clone.Fragment
@@ -76,8 +79,10 @@ func c10Cut(e c10Enzyme, seq string, circular bool) (keys []string, panicked str
 			frs = clone.CutWithEnzyme(clone.Part{Sequence: seq, Circular: circular}, true, e.poly())
 		}
 	})
+	c10LastFragment = ""
 	for _, f := range frs {
 		keys = append(keys, strings.ToUpper(f.ForwardOverhang+"|"+f.Sequence+"|"+f.ReverseOverhang))
+		c10LastFragment = f.Sequence
 	}
 	sort.Strings(keys)
 	return
@@ -280,6 +285,9 @@ func c10SafeOrigin(lay c10Layout) int {
 // c10Judge compares one poly call with the model. want are the model's keys for the molecule.
 func c10Judge(w *mon.W, id string, lay c10Layout, stored string, want []string, what string) bool {
 	got, p, err := c10Cut(lay.enz, stored, lay.circular)
+	if c10LastFragment != "" {
+		retainCheck(w, id, "CutWithEnzyme", c10LastFragment, "a fragment of "+what)
+	}
 	w.Eval(len(lay.placed) > 0, mon.Hash64(lay.enz.String(), stored, fmt.Sprint(lay.circular)))
 	rep := map[string]any{"enzyme": lay.enz.String(), "sequence": stored, "circular": lay.circular, "expected": want, "observed": got}
 	if p != "" {
